@@ -541,7 +541,7 @@ class World:
         cpu = None
         if cpu_cfg.get("on", True):
             cpu = make_cpu(stream(self.seed, "cpu"), cpu_cfg.get("p_busy", 0.25), cpu_cfg.get("p_stall", 0.004), loop_ref)
-        self.loop = SimLoop(cpu=cpu, max_steps=script.get("max_steps", 60_000))
+        self.loop = SimLoop(cpu=cpu, max_steps=script.get("max_steps", 60_000 + 6_000 * len(script.get("messages", []))))
         loop_ref.append(self.loop)
         self.recorder = Recorder(self)
         self.rec = self.recorder.rec
